@@ -21,6 +21,7 @@ import (
 	"fmt"
 	"go/types"
 	"sort"
+	"strconv"
 	"strings"
 	"unsafe"
 
@@ -650,13 +651,23 @@ func keyString(v value) (string, bool) {
 func writeKey(sb *strings.Builder, v value) bool {
 	switch v := v.(type) {
 	case bool:
-		fmt.Fprintf(sb, "b%v;", v)
+		if v {
+			sb.WriteString("bT;")
+		} else {
+			sb.WriteString("bF;")
+		}
 	case cint:
-		fmt.Fprintf(sb, "i%d;", uint64(v))
+		sb.WriteByte('i')
+		sb.WriteString(strconv.FormatUint(uint64(v), 10))
+		sb.WriteByte(';')
 	case float64:
 		fmt.Fprintf(sb, "f%v;", v)
 	case string:
-		fmt.Fprintf(sb, "s%d:%s;", len(v), v)
+		sb.WriteByte('s')
+		sb.WriteString(strconv.Itoa(len(v)))
+		sb.WriteByte(':')
+		sb.WriteString(v)
+		sb.WriteByte(';')
 	case *value:
 		fmt.Fprintf(sb, "p%p;", v)
 	case *channel:
@@ -681,7 +692,9 @@ func writeKey(sb *strings.Builder, v value) bool {
 		if v.t == nil {
 			sb.WriteString("nil;")
 		} else {
-			fmt.Fprintf(sb, "T%s:", v.t.String())
+			sb.WriteByte('T')
+			sb.WriteString(v.t.String())
+			sb.WriteByte(':')
 			return writeKey(sb, v.v)
 		}
 	default:
